@@ -2350,7 +2350,9 @@ evhttp_get_body_length(struct evhttp_request *req)
 	} else {
 		char *endp;
 		ev_int64_t ntoread = evutil_strtoll(content_length, &endp, 10);
-		if (*content_length == '\0' || *endp != '\0' || ntoread < 0) {
+		/* Content-Length = 1*DIGIT: strtoll() alone would also take a
+		 * sign or leading white space. */
+		if (!EVUTIL_ISDIGIT_(*content_length) || *endp != '\0' || ntoread < 0) {
 			event_debug(("%s: illegal content length: %s",
 				__func__, content_length));
 			return (-1);
